@@ -105,6 +105,34 @@ theorem C05_times (upd : S → ℕ → K → K × S × R) (s0 : S) (k : ℕ) (hk
   · simp [hm]
   · simp [hm, List.range_succ]
 
+/-- **The reported times depend on the recorded steps only** — not on the requested solve time: for ANY number `M` of
+    recorded steps (a finished run, or a run stopped early by a cancellation or an error), `Solution.times` computed from the
+    `M` per-step time steps is the clock at the labels `0, k, 2k, … ≤ M`, plus the clock at `M` when `M` is not on the grid.
+    (`C05_times` is the instance `M = N` for a finished stage; for a stopped run these are the labels of the frames a truthful
+    output holds, C15.) -/
+theorem C05_times_of_steps (upd : S → ℕ → K → K × S × R) (s0 : S) (k M : ℕ) :
+    solutionTimes k (dtsOf upd s0 M)
+      = (((List.range (M+1)).filter (fun i => i % k = 0)) ++ (if M % k = 0 then [] else [M])).map
+          (fun n => (traj upd s0 n).1) := by
+  unfold solutionTimes
+  simp only
+  rw [C05_cumsum_is_clock, everyKth_map_range, List.length_map, List.length_range,
+    Nat.add_sub_cancel, List.map_append]
+  by_cases hm : M % k = 0
+  · simp [hm]
+  · simp [hm, List.range_succ]
+
+/-- A rule that decides the extra final time by comparing the last grid time with the requested solve time (a seeded change
+    of round 12) reports a time that no frame has when a run is cancelled on a grid step: `k = 4`, four unit steps recorded,
+    solve time 10 — the frames are at times 0 and 4, the rule gives `[0, 4, 4]`. -/
+theorem C05_times_by_solve_time_counterexample :
+    let dts : List ℕ := [1, 1, 1, 1]
+    let times := (0 : ℕ) :: cumsumFrom 0 dts
+    let saved := everyKth 4 times
+    (if saved.getLast?.getD 0 < 10 then saved ++ (match times.getLast? with | some t => [t] | none => []) else saved) = [0, 4, 4] ∧
+    solutionTimes 4 dts = [0, 4] := by
+  constructor <;> decide
+
 /-- The pinned upstream tree reported other times: with unit steps, `k = 3`, 7 steps, the frames are at
     times `0, 3, 6, 7` but `cumsum(dt)[::3]` (+ last) gives `1, 4, 7`. -/
 theorem C05_times_old_counterexample :
